@@ -23,7 +23,7 @@ RULE = (
     "aborted) and one target batch of k = 0..12 seeded operations (read / write / delete / in / copy over buffered, "
     "wrapped-only and absent keys; a second party writing the wrapped store while the block is open), do_deletes "
     "drawn per batch, followed by reads and an empty batch. The target batch is executed k+2 times 2 as linear "
-    "traces: normal exit, and an exception after every position 0..k in the Exception and BaseException flavours. "
+    "traces: normal exit, and an exception after every position 0..k in the Exception, BaseException and abandoned-coroutine (GeneratorExit) flavours; calls and exits may happen inside an active except handler. "
     "An evaluation is one complete execution of a trace. Non-trivial: the target batch buffered at least one write "
     "and one delete; distinct: by trace digest."
 )
